@@ -3,7 +3,7 @@ from mirsym.harness import Check
 from .C01 import ASSUME
 from .plan import scripted_jobs
 
-QUICK = ['seq2', 'two_if', 'if_else_first', 'catch_act', 'cancel_par']
+QUICK = ['seq2', 'two_if', 'if_else_first', 'catch_act', 'cancel_par', 'par_block']
 
 
 def main(tier, seed):
